@@ -3,7 +3,7 @@ import DoitModel.Proofs.C09Ord3
     no cycle of `edgesAt`; at a normal end every member of `closureOf` has a terminal report -/
 namespace DoitModel.Run
 
-variable {inp : RunInput} [NoFailDeliver inp]
+variable {inp : RunInput}
 
 /-! ### list lemmas -/
 
